@@ -20,6 +20,9 @@ STATE_RECV = (("self",), ("parser",), ("state",))
 LOCAL_PREFIXES = ("parse_", "consume_", "form_", "build_", "transform_", "from_parse", "new_image", "set_atom_name", "push_components")
 
 
+PARAMS = {}      # name -> "$k" for the function being abstracted (set by Skel.of_fn)
+
+
 def argkey(e):
     e = strip(e)
     while e["k"] == "AddrOf" or (e["k"] == "Unary" and e.get("op") in ("*", "Deref")):
@@ -29,9 +32,11 @@ def argkey(e):
         tf = maps.table_field(fp)
         if tf:
             return tf
-        if fp[0] == "self":
-            return ".".join(fp)
-        return fp[0] if len(fp) == 1 else ".".join(fp)
+        if fp[0] in ("self", "parser", "state"):
+            return ".".join(("self",) + tuple(fp[1:]))
+        # binder independent: parameters by position, other locals anonymous
+        root = PARAMS.get(fp[0], "·")
+        return root if len(fp) == 1 else ".".join((root,) + tuple(fp[1:]))
     if e["k"] == "Lit":
         v = e["lit"]["v"]
         return repr(v) if not (isinstance(v, str) and len(v) > 3) else "<str>"
@@ -47,6 +52,12 @@ class Skel:
         self.f = facts
 
     def of_fn(self, it):
+        PARAMS.clear()
+        k = 0
+        for q in it.get("params", []):
+            if q.get("k") == "Binding" and q["name"] != "self":
+                k += 1
+                PARAMS[q["name"]] = "$%d" % k
         return self.norm(self.ops(it["body"]))
 
     def ops(self, e):
@@ -59,6 +70,9 @@ class Skel:
             for s in e["stmts"]:
                 if s["k"] == "Let":
                     out += self.ops(s.get("init"))
+                    ip = field_path(strip(s["init"])) if s.get("init") else None
+                    if ip and ip[0] in ("self", "parser") and ip[-1] in ("head", "len_env") and s["pat"]["k"] == "Binding":
+                        out.append(("snapshot", ".".join(("self",) + tuple(ip[1:]))))
                     if s.get("els"):
                         out += [("else", self.norm(self.ops(s["els"])))]
                 elif s["k"] in ("Semi", "Expr"):
@@ -76,10 +90,14 @@ class Skel:
                 return inner + [("cur", m) + tuple(argkey(a) for a in e["args"])]
             if rp in STATE_RECV and m in TESTS:
                 return inner + [("test", m) + tuple(argkey(a) for a in e["args"])]
+            if rp and rp[-1] == "env" and rp[0] in ("self", "parser", "state") and m in ("is_empty", "len"):
+                return inner + [("test", "env." + m)]
             if rp and len(rp) >= 2 and rp[-2] == "mid_result" and m in SLOT_METHODS:
                 return inner + [("slot", rp[-1], m)]
             if rp and len(rp) == 1 and rp[0].endswith("buffer") and m in BUFFER_METHODS:
-                return inner + [("buf", rp[0], m)]
+                return inner + [("buf", m)]
+            if m.startswith("is_") and (strip(e["recv"]).get("ty") or "") in ("char", "&char"):
+                return inner + [("cls", m)]
             d = e.get("def") or ""
             if MOD in d or m.startswith(LOCAL_PREFIXES):
                 return inner + [("call", m) + tuple(argkey(a) for a in e["args"])]
@@ -112,6 +130,22 @@ class Skel:
                 for a in e["arms"]:
                     body += self.ops(a["body"])
                 return sc + [("loop", self.norm(body))]
+            # `match cond { true => A, false => B }` is the same production as `if cond { A } else { B }`
+            bools = {}
+            for a in e["arms"]:
+                q = a["pat"]
+                if q.get("k") == "Expr" and q["expr"].get("k") == "Lit" and isinstance(q["expr"]["lit"].get("v"), bool) and not a.get("guard"):
+                    bools[q["expr"]["lit"]["v"]] = a
+                elif q.get("k") == "Wild" and len(e["arms"]) == 2 and not a.get("guard"):
+                    bools.setdefault("_", a)
+            if len(e["arms"]) == 2 and (set(bools) == {True, False} or (len(bools) == 2 and "_" in bools)):
+                t_arm = bools.get(True) or bools.get("_")
+                f_arm = bools.get(False) or bools.get("_")
+                if True not in bools:
+                    t_arm = bools["_"]
+                if False not in bools:
+                    f_arm = bools["_"]
+                return [("if", self.norm(sc), self.norm(self.ops(t_arm["body"])), self.norm(self.ops(f_arm["body"])))]
             arms = []
             for a in e["arms"]:
                 g = self.ops(a["guard"]) if a.get("guard") else []
@@ -126,7 +160,26 @@ class Skel:
         if k in ("Break", "Continue"):
             return self.ops(e.get("e")) + [(k.lower(),)]
         if k == "Binary":
-            return self.ops(e["l"]) + self.ops(e["r"])
+            out = self.ops(e["l"]) + self.ops(e["r"])
+            l, r = strip(e["l"]), strip(e["r"])
+            # character-class tests of the scanners (`head_char() == '+'`) and progress tests on the cursor (`self.head == start`)
+            for a, b_ in ((l, r), (r, l)):
+                if b_["k"] == "Lit" and b_["lit"].get("lit") == "char":
+                    out.append(("cmp", e["op"], repr(b_["lit"]["v"])))
+                    break
+            if e["op"] in ("&&", "||", "And", "Or") and out:
+                out.append(("bool", "&&" if e["op"] in ("&&", "And") else "||"))
+            fl, fr = field_path(l), field_path(r)
+            if (fl and fl[-1] in ("head", "len_env") and fl[0] in ("self", "parser")) or (fr and fr[-1] in ("head", "len_env") and fr[0] in ("self", "parser")):
+                def side(fp_):
+                    if not fp_:
+                        return "<expr>"
+                    return ".".join(("self",) + tuple(fp_[1:])) if fp_[0] in ("self", "parser", "state") else "·"
+                out.append(("cmpstate", e["op"], side(fl), side(fr)))
+            return out
+        if k == "Unary" and e.get("op") in ("!", "Not"):
+            inner = self.ops(e.get("e"))
+            return inner + ([("not",)] if inner else [])
         if k in ("Unary", "AddrOf", "Cast", "Field", "DropTemps"):
             return self.ops(e.get("e"))
         if k == "Assign" or k == "AssignOp":
@@ -191,13 +244,41 @@ def diff(a, b, path="#"):
     return None
 
 
+PRIMITIVES = {"starts_with", "can_consume", "head_char", "head_move", "head_step", "head_step_one", "head_skip", "head_skip_and_spaces", "head_skip_after_spaces"}
+# composite cursor helpers are expanded into the primitive sequence they stand for (so `head_skip_and_spaces(k)` == `head_skip(k); head_skip_spaces()`)
+EXPAND = {"head_skip_and_spaces": lambda a: [["cur", "head_skip"] + a, ["cur", "head_skip_spaces"]],
+          "head_skip_after_spaces": lambda a: [["cur", "head_skip_spaces"], ["cur", "head_skip"] + a]}
+
+
+def expand(sk):
+    if not isinstance(sk, list):
+        return sk
+    out = []
+    for o in sk:
+        if isinstance(o, list) and len(o) >= 2 and o[0] == "cur" and o[1] in EXPAND:
+            out += EXPAND[o[1]](o[2:])
+        elif isinstance(o, list):
+            out.append(expand(o))
+        else:
+            out.append(o)
+    # collapse repeated skip_spaces produced by the expansion
+    res = []
+    for o in out:
+        if o == ["cur", "head_skip_spaces"] and res and res[-1] == o:
+            continue
+        res.append(o)
+    return res
+
+
 def extract_all(facts):
     sk = Skel(facts)
     out = {}
     for p, it in sorted(facts.hir.items()):
         if MOD not in p or it.get("body") is None or "::tests" in p or it["defkind"] not in ("Fn", "AssocFn"):
             continue
-        s = to_json(sk.of_fn(it))
+        if it["name"] in PRIMITIVES:
+            continue            # their exact meaning is P-PRIM's / P-FULLMATCH's business
+        s = expand(to_json(sk.of_fn(it)))
         if s:
             key = it["name"]
             im = (it.get("impl") or {})
